@@ -203,3 +203,11 @@ func CallDupM(a int) int { return dupInst.Get(a) }
 
 // CallDup reaches the unexported dup of this package.
 func CallDup(a int) int { return dup(a) }
+
+// LitF / LitG / LitH: FUNCTION LITERALS as mock targets (symbols pkg.glob..funcN / pkg.init.funcN); their bodies call an ordinary
+// function first, like most literals do.
+var (
+	LitF = func(a int) int { return work(a) + 1000 }
+	LitG = func(a int) int { return work(a) + 2000 }
+	LitH = func(a int) int { return work(a) + 3000 }
+)
